@@ -14,6 +14,8 @@ THEOREMS = [
     "C06_criterion_is_distortion",
     "C06_old_criterion_single_block",
     "C06_stop_rule",
+    "C06_counts_partition",
+    "C06_sums_partition",
 ]
 CORR_OPS = ["kmeans_iter:e_step", "kmeans_iter:fit1_numpy", "kmeans_iter:fit1_dask", "kmeans_iter:from_initialize", "em_stop:kmeans_numpy", "em_stop:kmeans_dask", "em_stop:kmeans_refit"]
 RULE = ("data x initial centroids (explicit arrays, or what the real initialize produced for seeded 'random' / 'k-means||') x row "
